@@ -100,6 +100,19 @@ def run(ctx):
         ctx.ob("C15.E.print-delegates-per-variant", f.key, "Meta → meta.to_tokens, Lit → lit.to_tokens", m == {"Meta": "(self as Meta).0", "Lit": "(self as Lit).0"}, "%s" % m)
 
     # ---------------------------------------------------------------- default dispatchers
+    # "an error returned by any hook comes back carrying the item's span unless it already carried
+    # one": in the case table of each default dispatcher every failing case is with_span(<error>, item)
+    for h in ("from_nested_meta", "from_meta", "from_expr", "from_value"):
+        f = ctx.fn(T + h)
+        if not f:
+            continue
+        failing = [(c, v) for c, v in resalg.cases(ctx, f) if v.startswith("core::result::Result::Err{")]
+        ctx.ob("C15.G.hook-errors-get-item-span", f.key, "failing cases exist", len(failing) >= 2, "%d failing cases" % len(failing))
+        for c, v in failing:
+            spanned = re.match(r"^core::result::Result::Err\{darling_core::error::Error::with_span\(.*, a1\)\}$", v) is not None
+            syn_err = re.match(r"^core::result::Result::Err\{\(darling_core::ast::data::NestedMeta::parse_meta_list\(.*\) as Err\)\.0\}$", v) is not None
+            ctx.ob("C15.G.hook-errors-get-item-span", f.key, "failing case under %s" % [a[:60] for a in c if a.startswith("discr(")], spanned or syn_err,
+                   "an error leaves the default %s without .with_span(item): %s" % (h, v[:200]))
     f = ctx.fn(T + "from_nested_meta")
     if f:
         v = inner_by_variant(ctx, f)
